@@ -1,16 +1,26 @@
 /-
-C19, negative part (finding F12 / DESIGN O6): the responses of the Boudot "proof of same secret"
-(used by the proof of square inside every range proof, hence inside both CL03 proofs of
-knowledge) do NOT mask their secret. The blinding `omega` is drawn below `2^(l+t)·b` while the
-challenge is a full hash value, so `floor(d / c) − x = floor(omega / c)`, which is tiny whenever
-`c` is not much smaller than `2^(l+t)·b`: the quotient of the response by its (public) challenge
-is the secret up to `2^(l+t)·b / c`.
-This is a theorem about the MODEL (`ZkModel/L1/Cl.lean`), which mirrors the implementation; the
-implementation-side oracle `C19.boudot_square_response` recovers hidden attributes exactly.
+C19, the Boudot "proof of same secret" (used by the proof of square inside every range proof, hence
+inside both CL03 proofs of knowledge): how well the response `d = ω + c·x` masks its secret.
+
+History (DESIGN finding F12, repaired by /repo commit c2c34ea): the blinding `ω` used to be drawn
+below `2^(l+t)·rmax` while the challenge `c` is a full hash value (`2t` bits) and the secret a square
+root of more than 400 bits, so `⌊d / c⌋ − x = ⌊ω / c⌋` was tiny and the quotient of the response by
+its public challenge was the secret (`old_range_leak_bound`). Since the repair `ω` is drawn below
+`2^(l+2t)·b₁` with `b₁` a bound of the secret:
+* `same_secret_response` — the model's response is `ω + c·x` with `ω` the first draw, in the new range;
+* `response_shift`, `shift_in_range`, `masked_fraction` — for two secrets `x, x' ∈ [0, b]` and a
+  challenge below `2^(2t)` the blinding `ω' = ω + c·(x − x')` gives the other secret the SAME
+  response, and `ω'` is again a legal draw for all `ω` except at most `2·2^(2t)·b` of the
+  `2^(l+2t)·b − 1` possible ones (a fraction below `2^(1−l)`): the response distribution of two
+  secrets differs by at most `2^(1−l)` in statistical distance.
+These are theorems about the MODEL (`ZkModel/L1/Cl.lean`), tied to the implementation by the
+correspondence check (tape contract: the draw must lie in the stated range) and by the
+implementation-side oracle `C19.boudot_square_response`.
 -/
 import ZkProofs.Lemmas.ClMonad
 import Mathlib.Tactic.Ring
 import Mathlib.Tactic.Linarith
+import Mathlib.Tactic.Positivity
 
 namespace Zk.C19Leak
 open Zk.Cl Zk.IA
@@ -21,16 +31,15 @@ theorem quotient_reveals (ω c x : Int) (hc : 0 < c) : (ω + c * x) / c - x = ω
     rw [Int.add_mul_ediv_left _ _ (ne_of_gt hc)]
   omega
 
-/-- **The proof-of-same-secret response reveals its secret.** For every tape on which
-`proofSameSecret` returns, its response `d` satisfies `d / c − x = ω / c` where `ω` is the first
-draw, `1 ≤ ω ≤ 2^(l+t)·b − 1`; hence `0 ≤ d / c − x ≤ (2^(l+t)·b − 1) / c`. -/
-theorem same_secret_response_leak {x r1 r2 g1 h1 g2 h2 : Int} {l t : Nat} {b : Int} {s1 s2 : Nat}
+/-- **Shape of the response.** For every tape on which `proofSameSecret` returns, its response `d`
+is `ω + c·x` where `ω` is the first draw, `1 ≤ ω ≤ 2^(l+2t)·b − 1`; hence
+`⌊d / c⌋ − x = ⌊ω / c⌋`. -/
+theorem same_secret_response {x r1 r2 g1 h1 g2 h2 : Int} {l t : Nat} {b : Int} {s1 s2 : Nat}
     {n : Int} {tape rest : List Draw} {π : ProofSs}
     (h : proofSameSecret x r1 r2 g1 h1 g2 h2 l t b s1 s2 n tape = .ok (π, rest))
     (hc : 0 < π.challenge) :
-    ∃ ω : Int, 1 ≤ ω ∧ ω ≤ 2 ^ (l + t) * b - 1 ∧ π.d = ω + π.challenge * x ∧
-      π.d / π.challenge - x = ω / π.challenge ∧
-      0 ≤ π.d / π.challenge - x ∧ π.d / π.challenge - x ≤ (2 ^ (l + t) * b - 1) / π.challenge := by
+    ∃ ω : Int, 1 ≤ ω ∧ ω ≤ 2 ^ (l + 2 * t) * b - 1 ∧ π.d = ω + π.challenge * x ∧
+      π.d / π.challenge - x = ω / π.challenge := by
   unfold proofSameSecret at h
   obtain ⟨ω, t1, hω, h⟩ := bind_ok_inv h
   obtain ⟨mu1, t2, _, h⟩ := bind_ok_inv h
@@ -42,31 +51,87 @@ theorem same_secret_response_leak {x r1 r2 g1 h1 g2 h2 : Int} {l t : Nat} {b : I
   have hπ := (pure_ok_iff.mp h).1
   obtain ⟨_, _, _, _, hlo, hhi⟩ := randInt_ok_inv hω
   have hd : π.d = ω + π.challenge * x := by rw [← hπ]
-  have hq := quotient_reveals ω π.challenge x hc
-  refine ⟨ω, hlo, hhi, hd, ?_, ?_, ?_⟩
-  · rw [hd]; exact hq
-  · rw [hd, hq]; exact Int.ediv_nonneg (by omega) (le_of_lt hc)
-  · rw [hd, hq]; exact Int.ediv_le_ediv hc hhi
+  refine ⟨ω, hlo, hhi, hd, ?_⟩
+  rw [hd]; exact quotient_reveals ω π.challenge x hc
 
-/-- Concretely: with the generated parameters (`l + t = 168`) and a secret bound `b < 2^257`
-(every `rmax` the library passes), a challenge of at least 255 bits pins the secret down to
-`2^170`: the quotient `d / c` and the secret `x` differ by less than `2^170`, although secrets
-answered for here (`x_1 ≈ sqrt(2^T·x)`) have more than 400 bits. -/
-theorem same_secret_response_leak_bound {x r1 r2 g1 h1 g2 h2 : Int} {b : Int} {s1 s2 : Nat}
+/-- The first draw of `proofSameSecret` is the blinding, with the range the tape contract enforces
+(a draw outside `[1, 2^(l+2t)·b − 1]` is a tape disagreement, never an accepted run). -/
+theorem same_secret_first_draw_range {x r1 r2 g1 h1 g2 h2 : Int} {l t : Nat} {b : Int} {s1 s2 : Nat}
     {n : Int} {tape rest : List Draw} {π : ProofSs}
-    (h : proofSameSecret x r1 r2 g1 h1 g2 h2 40 128 b s1 s2 n tape = .ok (π, rest))
-    (hb : b ≤ 2 ^ 257) (hc : 2 ^ 255 ≤ π.challenge) :
-    0 ≤ π.d / π.challenge - x ∧ π.d / π.challenge - x < 2 ^ 170 := by
-  have hc0 : 0 < π.challenge := lt_of_lt_of_le (by positivity) hc
-  obtain ⟨ω, _, hhi, _, _, h0, h1⟩ := same_secret_response_leak h hc0
-  refine ⟨h0, lt_of_le_of_lt h1 ?_⟩
-  have hnum : (2 : Int) ^ (40 + 128) * b - 1 < 2 ^ 170 * π.challenge := by
+    (h : proofSameSecret x r1 r2 g1 h1 g2 h2 l t b s1 s2 n tape = .ok (π, rest)) :
+    ∃ ω : Int, 1 ≤ ω ∧ ω ≤ 2 ^ (l + 2 * t) * b - 1 ∧ π.d = ω + π.challenge * x := by
+  unfold proofSameSecret at h
+  obtain ⟨ω, t1, hω, h⟩ := bind_ok_inv h
+  obtain ⟨mu1, t2, _, h⟩ := bind_ok_inv h
+  obtain ⟨mu2, t3, _, h⟩ := bind_ok_inv h
+  obtain ⟨a, t4, _, h⟩ := bind_ok_inv h
+  obtain ⟨b1, t5, _, h⟩ := bind_ok_inv h
+  obtain ⟨a2, t6, _, h⟩ := bind_ok_inv h
+  obtain ⟨b2, t7, _, h⟩ := bind_ok_inv h
+  have hπ := (pure_ok_iff.mp h).1
+  obtain ⟨_, _, _, _, hlo, hhi⟩ := randInt_ok_inv hω
+  exact ⟨ω, hlo, hhi, by rw [← hπ]⟩
+
+/-- Two secrets give the same response under blindings that differ by `c·(x − x')`. -/
+theorem response_shift (ω c x x' : Int) : ω + c * x = (ω + c * (x - x')) + c * x' := by ring
+
+/-- **The shifted blinding is a legal draw** whenever `ω` keeps a margin `2^(2t)·b` from both ends of
+its range: for secrets `0 ≤ x, x' ≤ b` and a challenge `0 ≤ c < 2^(2t)`. -/
+theorem shift_in_range {ω c x x' b : Int} {l t : Nat} (hx : 0 ≤ x) (hxb : x ≤ b) (hx' : 0 ≤ x')
+    (hxb' : x' ≤ b) (hc0 : 0 ≤ c) (hc : c < 2 ^ (2 * t))
+    (hlo : 1 + 2 ^ (2 * t) * b ≤ ω) (hhi : ω ≤ 2 ^ (l + 2 * t) * b - 1 - 2 ^ (2 * t) * b) :
+    1 ≤ ω + c * (x - x') ∧ ω + c * (x - x') ≤ 2 ^ (l + 2 * t) * b - 1 := by
+  have hb : 0 ≤ b := le_trans hx hxb
+  have hP : (0 : Int) < 2 ^ (2 * t) := by positivity
+  have h1 : c * (x - x') ≤ 2 ^ (2 * t) * b := by
+    have : c * (x - x') ≤ c * b := mul_le_mul_of_nonneg_left (by omega) hc0
+    have : c * b ≤ 2 ^ (2 * t) * b := mul_le_mul_of_nonneg_right (le_of_lt hc) hb
+    linarith
+  have h2 : -(2 ^ (2 * t) * b) ≤ c * (x - x') := by
+    have : c * (x' - x) ≤ c * b := mul_le_mul_of_nonneg_left (by omega) hc0
+    have : c * b ≤ 2 ^ (2 * t) * b := mul_le_mul_of_nonneg_right (le_of_lt hc) hb
+    have e : c * (x - x') = -(c * (x' - x)) := by ring
+    linarith
+  constructor <;> linarith
+
+/-- **How many blindings are not covered**: the blindings excluded by `shift_in_range` number
+`2·2^(2t)·b`, and `2^l` times that is at most twice the size `2^(l+2t)·b` of the whole range — the
+responses of two secrets differ by a fraction of at most `2^(1−l)` of the draws. -/
+theorem masked_fraction (b : Int) (l t : Nat) (_hb : 0 ≤ b) :
+    2 ^ l * (2 * (2 ^ (2 * t) * b)) = 2 * (2 ^ (l + 2 * t) * b) := by
+  rw [pow_add]; ring
+
+/-- The excluded blindings really are a sub-range: with `1 ≤ b` and `2 ≤ l` the interval of
+`shift_in_range` is non-empty (so the statement is not vacuous). -/
+theorem covered_range_nonempty {b : Int} {l t : Nat} (hb : 1 ≤ b) (hl : 2 ≤ l) :
+    1 + 2 ^ (2 * t) * b ≤ 2 ^ (l + 2 * t) * b - 1 - 2 ^ (2 * t) * b := by
+  have hP : (1 : Int) ≤ 2 ^ (2 * t) := one_le_pow₀ (by norm_num)
+  have h4 : (4 : Int) ≤ 2 ^ l := by
+    calc (4 : Int) = 2 ^ 2 := by norm_num
+      _ ≤ 2 ^ l := pow_le_pow_right₀ (by norm_num) hl
+  have hPb : 1 ≤ 2 ^ (2 * t) * b := by nlinarith
+  have : 4 * (2 ^ (2 * t) * b) ≤ 2 ^ (l + 2 * t) * b := by
+    rw [pow_add]
+    have : 4 * (2 ^ (2 * t) * b) ≤ 2 ^ l * (2 ^ (2 * t) * b) :=
+      mul_le_mul_of_nonneg_right h4 (by linarith)
+    linarith [mul_assoc ((2 : Int) ^ l) (2 ^ (2 * t)) b]
+  linarith
+
+/-- **F12, as it was** (pure arithmetic about the range used before the repair): with `l + t = 168`,
+a secret bound `b ≤ 2^257` (every `rmax` the library passes) and a challenge of at least 255 bits,
+every blinding `ω ≤ 2^(l+t)·b − 1` has `⌊ω / c⌋ < 2^170`, so `⌊d / c⌋` was the secret up to `2^170`
+although the secrets answered for (`x₁ ≈ √(2^T·x)`) have more than 400 bits. -/
+theorem old_range_leak_bound {ω c b : Int} (hω : ω ≤ 2 ^ (40 + 128) * b - 1) (hb : b ≤ 2 ^ 257)
+    (hc : 2 ^ 255 ≤ c) : ω / c < 2 ^ 170 := by
+  have hc0 : 0 < c := lt_of_lt_of_le (by positivity) hc
+  have hnum : ω < 2 ^ 170 * c := by
     have e1 : (2 : Int) ^ (40 + 128) * 2 ^ 257 = 2 ^ 170 * 2 ^ 255 := by
       rw [← pow_add, ← pow_add]
-    calc (2 : Int) ^ (40 + 128) * b - 1 < 2 ^ (40 + 128) * b := sub_one_lt _
+    calc ω ≤ 2 ^ (40 + 128) * b - 1 := hω
+      _ < 2 ^ (40 + 128) * b := sub_one_lt _
       _ ≤ 2 ^ (40 + 128) * 2 ^ 257 := mul_le_mul_of_nonneg_left hb (by positivity)
       _ = 2 ^ 170 * 2 ^ 255 := e1
-      _ ≤ 2 ^ 170 * π.challenge := mul_le_mul_of_nonneg_left hc (by positivity)
+      _ ≤ 2 ^ 170 * c := mul_le_mul_of_nonneg_left hc (by positivity)
   exact Int.ediv_lt_of_lt_mul hc0 hnum
 
 end Zk.C19Leak
